@@ -8,6 +8,8 @@ from .base import Mgr, replay  # noqa: F401
 RULE = ('functions by truth table (3 variables: sampled/all; 4 variables sampled) x partial '
         'assignments (all) x variable-to-variable maps (all, injective or not) x sampled '
         'replacement tuples (also mentioning replaced variables) x order x sign x fresh/aged; '
+        'single-variable substitution: every variable x a pool of replacements x both signs (3 variables: '
+        'all 256 functions in the thorough tier); '
         'non-trivial = the substitution touches the support')
 EXHAUSTIVE = {'quick': False, 'thorough': False}
 ASSUMES = []
@@ -104,9 +106,55 @@ def stream(ctx, n, order, tts, aged, nmaps, nsubs):
     ctx.sample(dict(stream=M.s.label, first_lines=M.s.lines[:8]))
 
 
+def stream_compose1(ctx, n, order, tts, ng, aged):
+    """single-variable substitution (the recursion `_compose` with its own memo): every
+    variable x every replacement of a pool (some not depending on all variables) x both signs
+    of the operand and of the replacement"""
+    M = Mgr(ctx, f'compose1 n={n} order={order} aged={aged}', n, order, aged=aged)
+    rng = ctx.rng
+    full = T.full(n)
+    pool = []
+    for i in range(ng):
+        tg = rng.getrandbits(1 << n)
+        if i % 2:
+            # independent of one or two variables
+            for j in rng.sample(range(n), rng.randint(1, min(2, n - 1))):
+                tg = T.cofactor(tg, n, {j: rng.random() < 0.5})
+        g = M.build(tg)
+        if g is not None:
+            M.op('incref', g)
+            pool.append((g, tg))
+    for t in tts:
+        u0 = M.build(t)
+        if u0 is None:
+            continue
+        M.op('incref', u0)
+        for sign in (1, -1):
+            u = sign * u0
+            tu = t if sign == 1 else T.neg(t, n)
+            for j in range(n):
+                for g, tg in pool:
+                    gs = rng.choice((1, -1))
+                    tgs = tg if gs == 1 else T.neg(tg, n)
+                    r = M.op('let_ref', {j: gs * g}, u)
+                    check(ctx, M, f'let(compose [{j}])', r, T.vector_compose(tu, n, {j: tgs}), (u, tu))
+                    ctx.case((n, order, aged, 'compose1', t, sign, j, tgs),
+                             T.depends(t, n, j) and tgs not in (0, full))
+                    ctx.count('let-compose1')
+        M.op('decref', u0)
+    M.check_table('C04:table')
+    ctx.sample(dict(stream=M.s.label, first_lines=M.s.lines[:8]))
+
+
 def run(ctx):
     q = ctx.quick
     rng = ctx.rng
+    for order in (rng.sample(gen.orders(3), 2) if q else gen.orders(3)):
+        stream_compose1(ctx, 3, order, sorted(rng.sample(range(256), 40)) if q else range(256),
+                        6, rng.random() < 0.5)
+    for order in rng.sample(gen.orders(4), 2 if q else 8):
+        stream_compose1(ctx, 4, order, [rng.getrandbits(16) for _ in range(8 if q else 60)],
+                        6, rng.random() < 0.5)
     for order in gen.orders(3):
         for aged in (False, True):
             stream(ctx, 3, order, sorted(rng.sample(range(256), 3 if q else 40)), aged,
